@@ -81,6 +81,7 @@ static const char* FailName(int fc) {
   case ref::F_OVERFLOW: return "OVERFLOW";
   case ref::F_INTSET: return "INTSET";
   case ref::F_MALFORMED: return "MALFORMED";
+  case ref::F_DEPTH: return "DEPTH";
   }
   return "?";
 }
@@ -197,7 +198,7 @@ static bool ClassMatches(uint32_t eid, int fc) {
 }
 
 static bool MaskMatches(uint32_t eid, uint32_t failMask) {
-  for (int fc = ref::F_LIMIT; fc <= ref::F_MALFORMED; ++fc) {
+  for (int fc = ref::F_LIMIT; fc <= ref::F_DEPTH; ++fc) {
     if ((failMask >> fc & 1U) != 0 && ClassMatches(eid, fc)) return true;
   }
   return false;
@@ -209,7 +210,7 @@ static std::string KnownDefect(const std::string& /*expr*/, const RealResult& /*
 }
 
 static constexpr uint32_t SET_LIMIT = 5000;
-static constexpr uint32_t STEP_LIMIT = 250000;  // > the real MAX_ITERATIONS (100000)
+static constexpr uint32_t STEP_LIMIT = 120000;  // > the real MAX_ITERATIONS (100000)
 using meta_ast = ccl::meta::UniqueCPPtr<SyntaxTree>;
 
 //! Names that ASTInterpreter::NameCollector attaches to a node (nodeVars), by name instead of slot id.
@@ -288,6 +289,27 @@ static RealResult Compare(const Prepared& prep, const Env& env, const ref::DataE
     ++stats.known;
     if (++g_knownHits["int32 overflow in ViArithmetic (UB)"] <= 5) printf("  KNOWN[arithmetic overflow] %s\n", expr.c_str());
     return real;
+  }
+
+  if ((oracle.failMask >> ref::F_DEPTH & 1U) != 0) {
+    // KNOWN real defect (would kill this process): e.g. R{a:=∅ | {a}} -- TypeAuditor::ViRecursion gives up
+    // after 5 rounds of type deduction and ACCEPTS a recursion whose type never stabilises; evaluation then
+    // nests values 100000 deep and the recursive Compare / destructors overflow the stack.
+    ++stats.total;
+    ++stats.known;
+    if (++g_knownHits["recursion with non-stabilising type accepted, stack overflow at evaluation"] <= 5) printf("  KNOWN[unbounded nesting] %s\n", expr.c_str());
+    return real;
+  }
+
+  if (oracle.kind == ref::EvalResult::FAIL && oracle.failClass == ref::F_LIMIT && oracle.steps >= STEP_LIMIT) {
+    // non-terminating recursion: the real interpreter needs 100000 iterations (seconds under ASan) to
+    // report iterationsLimit; check that on the first 30 such expressions only
+    static long nonTerminating = 0;
+    if (++nonTerminating > 30) {
+      ++stats.total;
+      ++stats.inconclusive;
+      return real;
+    }
   }
 
   // --- real: normalise a copy, evaluate
@@ -1197,8 +1219,16 @@ static void RunAll() {
 } // namespace gen
 
 int main(int argc, char** argv) {
-  signal(SIGABRT, OnAbort);
-  signal(SIGSEGV, OnAbort);
+  static char altStack[1 << 16];
+  stack_t ss{};
+  ss.ss_sp = altStack;
+  ss.ss_size = sizeof altStack;
+  sigaltstack(&ss, nullptr);
+  struct sigaction sa{};
+  sa.sa_handler = OnAbort;
+  sa.sa_flags = SA_ONSTACK;
+  sigaction(SIGABRT, &sa, nullptr);
+  sigaction(SIGSEGV, &sa, nullptr);
   std::string only{};
   for (int i = 1; i < argc; ++i) {
     if (!strcmp(argv[i], "-v")) g_verbose = true;
